@@ -135,7 +135,7 @@ pub fn emit(built: &Built) -> String {
         l!("                let rec_align = std::mem::align_of::<CappedRecord{}<CAP>>();", vi);
         for f in fields {
             l!(
-                "                {{ let a = AddrObs {{ datum: {}, addr: r.{}() as *const {} as usize, align: std::mem::align_of::<{}>(), size: std::mem::size_of::<{}>(), base, rec_size, rec_align }}; simrt::alloc::harness(|| out.push(a)); }}",
+                "                {{ let a = AddrObs {{ datum: {}, addr: std::hint::black_box(r.{}() as *const {}) as usize, align: std::mem::align_of::<{}>(), size: std::mem::size_of::<{}>(), base, rec_size, rec_align }}; simrt::alloc::harness(|| out.push(a)); }}",
                 f.datum, f.name, f.ty, f.ty, f.ty
             );
         }
